@@ -80,6 +80,7 @@ type Engine struct {
 	opaqueTys map[string]types.Type
 	rootFn    *ssa.Function
 	fnInfos   sync.Map
+	sklValueField, sklKeyField, sklListField int
 	LoadTime  time.Duration
 }
 
